@@ -34,13 +34,20 @@ Proof.
   destruct (nth_error row 3) as [[k e n | k e | e |]|]; try discriminate.
 Qed.
 
+(* the close contract decides whether FINALISATION is judged: a body that yields while it is being
+   finalised is in error (CPython reports RuntimeError to sys.unraisablehook) and what it observes
+   afterwards is not claimed.  The answers to the operations are always judged. *)
+Definition gen_spec (t : table) (impl ref : zobs) : bool :=
+  list_eqb zlist_eqb (fst (zerase_obs impl)) (fst ref)
+  && (negb (table_honours_close t) || zlist_eqb (snd (zerase_obs impl)) (snd ref)).
+
 (* impl: what the real (wrapped or unwrapped) object did; ref: what the real UNWRAPPED object
    did.  For coroutines the property is only claimed under the hypotheses of C03_coroutine. *)
 Definition pcase_ok (k : kind) (wrapped : bool) (t : table) (ops : list op) (impl ref : zobs) : bool * bool :=
   (zobs_eqb (model_obs k wrapped t ops) impl,
    match k with
    | KCoro => negb (coro_hyp t ops) || zobs_eqb (zerase_obs impl) ref
-   | _ => zobs_eqb (zerase_obs impl) ref
+   | _ => gen_spec t impl ref
    end).
 
 (* ---- nest stream: decorated functions / `with profiler:` blocks inside one another ----- *)
@@ -90,9 +97,9 @@ Definition fmeta_eqb (a b : fmeta) : bool :=
 Definition mcase_ok (orig impl : fmeta) : bool * bool :=
   (fmeta_eqb (wrap_meta orig) impl, fmeta_eqb impl orig).
 
-(* ---- alternative: does the implementation behave like the REPAIRED wrapper? -------------
-   Evaluated only when the current-wrapper model disagrees with the implementation: if every
-   wrapped generator / async generator case agrees with Wrap/GenWrapRepaired.v instead, the tree
-   has been repaired and C03_generator_repaired is the theorem that applies. *)
+(* ---- diagnostic: does the implementation behave like the OTHER wrapper variant? ----------
+   Evaluated only when the model named by `repo_forwards` disagrees with the implementation: if
+   every wrapped generator / async generator case agrees with the other variant, the tree has
+   changed sides and the line `Definition repo_forwards` in Wrap/GenWrap.v has to be flipped. *)
 Definition rcase_ok (k : kind) (t : table) (ops : list op) (impl : zobs) : bool :=
-  zobs_eqb (enc_obs (repaired_observe k (tbody t) 0 ops)) impl.
+  zobs_eqb (enc_obs (wrapped_observe_with (negb repo_forwards) k (tbody t) 0 ops)) impl.
